@@ -1,13 +1,18 @@
 #!/usr/bin/env python3
-"""tools/c06_switch.py fallback|arity snapshot|repaired [commit]
+"""tools/c06_switch.py fallback|arity|alias|lambda snapshot|repaired [commit]
 
-Keeps the hand-maintained places of the C06 check consistent with the tree in /repo.  Two independent switches
+Keeps the hand-maintained places of the C06 check consistent with the tree in /repo.  Four independent switches
 (coq/fnsym/ExpectedFacts.v), each with a recorded finding and a proposed repair:
 
   fallback   fixes/C06-no-return-no-expression.diff  (C06_expected_fallback: FbLastAssigned -> FbRaise;
              finding fallthrough-callee-compared, witness harness/c06_corpus.py::compares_none)
   arity      fixes/C06-empty-call-arity.diff         (C06_expected_arity: ArityStrictNonEmpty -> ArityStrict;
              finding zero-arg-call-of-defaulted-helper, witness harness/c06_corpus.py::caller0)
+
+  alias      fixes/C06-import-alias.diff             (C06_expected_alias: AliasIgnored -> AliasHonoured;
+             finding local-import-alias-ignored, witness harness/c06_corpus.py::scope_alias_unused)
+  lambda     fixes/C06-lambda-not-a-def.diff         (C06_expected_lambda: LamDefLine -> LamRefused;
+             finding lambda-on-def-line, witness harness/c06_corpus.py::lam_on_def_line)
 
   snapshot   /repo does not have the diff: ExpectedFacts.v expects the shipped value, the finding is recorded (its
              witness is replayed on every run and reported as KNOWN-FINDING);
@@ -20,7 +25,7 @@ from pathlib import Path
 V = Path(__file__).resolve().parent.parent
 which = sys.argv[1] if len(sys.argv) > 1 else ""
 mode = sys.argv[2] if len(sys.argv) > 2 else ""
-if which not in ("fallback", "arity") or mode not in ("snapshot", "repaired"):
+if which not in ("fallback", "arity", "alias", "lambda") or mode not in ("snapshot", "repaired"):
     sys.exit(__doc__)
 commit = sys.argv[3] if len(sys.argv) > 3 else "<commit-to-be-filled>"
 FB_ID = "fallthrough-callee-compared"
@@ -61,16 +66,60 @@ AR_FIXED = (f"fixed: property=C06 {commit} a nested call without arguments of a 
             "(caller0: a + 3.0*n, python 7 at a = 1); the empty argument list is now zipped strictly, such calls are refused like every other call relying on a default "
             "(fixes/C06-empty-call-arity.diff; demo findings/c06_empty_call_defaults.py) (id " + AR_ID + ")")
 
-FID, FINDING, FIXED = (FB_ID, FB_FINDING, FB_FIXED) if which == "fallback" else (AR_ID, AR_FINDING, AR_FIXED)
+AL_ID = "local-import-alias-ignored"
+AL_FINDING = {
+    "property": "C06",
+    "id": AL_ID,
+    "call_site": "src/mxlpy/meta/source_tools.py::_handle_fn_body, the ast.Import / ast.ImportFrom blocks (`name = alias.name` is the key under which ctx.modules / ctx.fns / ctx.symbols record a function-local import; alias.asname is never read)",
+    "guard": "a translated function (or a helper it calls) contains a function-local import written with `as` (`from m import a as b`, `import a.b as c`); the complement of the hypothesis alias_ok "
+             "(no import of the function uses `as`) of C06_names_resolved_as_python / C06_sound_with_local_imports for the shipped alias rule. The name-resolution stage generates `as` imports only when the "
+             "source has the repaired blocks or this entry is not recorded; the witness is replayed on every run.",
+    "witness": {"function": "harness/c06_corpus.py::scope_alias_unused  (module level: from harness.c06_libfast import scale [2 x];   def scope_alias_unused(s): from harness.c06_libslow import scale as sc; return scale(s))",
+                "model_args": None, "point": {"s": 3}, "python_value": 6, "expression": "3.0*s", "expression_value": 9},
+    "what_fails": "a function-local import with an alias is recorded under the name BEFORE `as`: the translator then resolves that name to the imported object although Python did not bind it "
+                  "(`from slow import scale as sc; return scale(s)` is translated with slow.scale, Python calls the module-level scale), and the alias itself stays unknown or resolves to a module-level "
+                  "binding of the same name (`import pkg.slowconsts as consts; return consts.K * s` reads the module-level consts) -- a wrong expression without any warning "
+                  "(Coq: C06_alias_ignored_refuted; demo findings/c06_import_alias.py). Proposed repair fixes/C06-import-alias.diff (record the import under `alias.asname or alias.name`, as Python binds it; "
+                  "full suite unchanged: 1378 passed / 761 failed as at baseline): recorded until the lead applies it, then `python3 tools/c06_switch.py alias repaired <commit>`.",
+}
+AL_FIXED = (f"fixed: property=C06 {commit} a function-local import written with `as` was recorded under the name before `as` (scope_alias_unused: `from slow import scale as sc; return scale(s)` gave 3.0*s, "
+            "python 6 at s = 3; `import pkg.consts as consts` left the module-level consts in force); the import is now recorded under the name Python binds "
+            "(fixes/C06-import-alias.diff; demo findings/c06_import_alias.py) (id " + AL_ID + ")")
+
+LA_ID = "lambda-on-def-line"
+LA_FINDING = {
+    "property": "C06",
+    "id": LA_ID,
+    "call_site": "src/mxlpy/meta/source_tools.py::get_fn_ast (`if not isinstance(fn_def := tree.body[0], ast.FunctionDef)` is the only test: the parsed source is never checked to be the source of `fn`)",
+    "guard": "the function handed to fn_to_sympy / get_fn_ast is a LAMBDA whose source statement (what inspect.getsource returns for a lambda) is a `def`: the lambda is a default value or a decorator "
+             "argument of that def; the complement of the hypothesis lambda_guard (the statement is not a def) of C06_lambda_refused for the shipped get_fn_ast. The lambda stage generates such statements "
+             "only when the source has the repaired test or this entry is not recorded; the witness is replayed on every run.",
+    "witness": {"function": "harness/c06_corpus.py::lam_on_def_line  (def rate_with_alt(s, k, alt=lambda s, k: s + k): return k * s;   lam_on_def_line = rate_with_alt.__defaults__[0])",
+                "model_args": None, "point": {"s": 3, "k": 3}, "python_value": 6, "expression": "k*s", "expression_value": 9},
+    "what_fails": "every other lambda is refused ('Not a function'), but for a lambda written on a def line inspect.getsource returns the whole def, get_fn_ast accepts it and the DEF's body is translated "
+                  "in the lambda's place: fn_to_sympy(<the lambda s + k>) returns k*s (Coq: C06_lambda_on_def_line_refuted; demo findings/c06_lambda_def_line.py). Proposed repair "
+                  "fixes/C06-lambda-not-a-def.diff (get_fn_ast refuses every function whose __name__ is '<lambda>'; full suite unchanged: 1378 passed / 761 failed as at baseline): recorded until the lead "
+                  "applies it, then `python3 tools/c06_switch.py lambda repaired <commit>`.",
+}
+LA_FIXED = (f"fixed: property=C06 {commit} a lambda written on a def line (default value, decorator argument) was translated as that DEF (lam_on_def_line: k*s for `lambda s, k: s + k`); get_fn_ast now "
+            "refuses every lambda (fixes/C06-lambda-not-a-def.diff; demo findings/c06_lambda_def_line.py) (id " + LA_ID + ")")
+
+FID, FINDING, FIXED = {"fallback": (FB_ID, FB_FINDING, FB_FIXED), "arity": (AR_ID, AR_FINDING, AR_FIXED), "alias": (AL_ID, AL_FINDING, AL_FIXED), "lambda": (LA_ID, LA_FINDING, LA_FIXED)}[which]
 
 ef = V / "coq/fnsym/ExpectedFacts.v"
 text = ef.read_text()
 if which == "fallback":
     want = "FbLastAssigned" if mode == "snapshot" else "FbRaise"
     new = re.sub(r"(Definition C06_expected_fallback : fb_mode := )\w+\.", rf"\g<1>{want}.", text)
-else:
+elif which == "arity":
     want = "ArityStrictNonEmpty" if mode == "snapshot" else "ArityStrict"
     new = re.sub(r"(Definition C06_expected_arity : arity_mode := )\w+\.", rf"\g<1>{want}.", text)
+elif which == "alias":
+    want = "AliasIgnored" if mode == "snapshot" else "AliasHonoured"
+    new = re.sub(r"(Definition C06_expected_alias : alias_mode := )\w+\.", rf"\g<1>{want}.", text)
+else:
+    want = "LamDefLine" if mode == "snapshot" else "LamRefused"
+    new = re.sub(r"(Definition C06_expected_lambda : lambda_mode := )\w+\.", rf"\g<1>{want}.", text)
 if new != text:
     ef.write_text(new)
 kfp = V / "known_findings.d/C06.json"
@@ -89,8 +138,16 @@ mp = V / "tools/manifest_src.d/C06.json"
 man = json.loads(mp.read_text())
 AR_SNAP = "Second switch: ExpectedFacts.v = ArityStrictNonEmpty (the tree guards the strict zip of fn_to_sympy with `len(model_args)`): the soundness theorems carry the hypothesis arity_ok = 'no definition has ALL its parameters defaulted'; its complement -- `helper()` of such a helper leaves the parameter as a free symbol -- is the recorded finding zero-arg-call-of-defaulted-helper (C06_empty_call_refuted) with proposed repair fixes/C06-empty-call-arity.diff (after applying: tools/c06_switch.py arity repaired <commit>). "
 AR_REP = "Second switch: ExpectedFacts.v = ArityStrict (fixes/C06-empty-call-arity.diff is applied: every argument list, the empty one included, is zipped strictly against the parameters): arity_ok is True, the soundness theorems hold without a guard on default arguments; the earlier `len(model_args)` guard is a fixed defect (C06_empty_call_refuted) and a return to it breaks C06_facts_pinned and is found by the corpus witness caller0. "
-SNAP_NOTE, REP_NOTE = (FB_SNAP, FB_REP) if which == "fallback" else (AR_SNAP, AR_REP)
-man["note"] = man["note"].replace(SNAP_NOTE, "@@POS@@").replace(REP_NOTE, "@@POS@@").replace("@@POS@@", SNAP_NOTE if mode == "snapshot" else REP_NOTE)
+AL_SNAP = "Third switch: ExpectedFacts.v = AliasIgnored (the tree records a function-local import under alias.name): C06_names_resolved_as_python / C06_sound_with_local_imports carry the hypothesis alias_ok = 'no import of the function is written with `as`'; its complement is the recorded finding local-import-alias-ignored (C06_alias_ignored_refuted) with proposed repair fixes/C06-import-alias.diff (after applying: tools/c06_switch.py alias repaired <commit>); the stage generates `as` imports only on a repaired tree. "
+AL_REP = "Third switch: ExpectedFacts.v = AliasHonoured (fixes/C06-import-alias.diff is applied: a function-local import is recorded under the name Python binds): alias_ok is True, the stage generates `as` imports; the earlier rule is a fixed defect (C06_alias_ignored_refuted), a return to it breaks C06_rfacts_pinned and is found by the corpus witnesses scope_alias_unused / scope_alias_module. "
+LA_SNAP = "Fourth switch: ExpectedFacts.v = LamDefLine (get_fn_ast only tests that the parsed source starts with a def): C06_lambda_refused carries the hypothesis lambda_guard = 'the lambda's source statement is not a def'; its complement is the recorded finding lambda-on-def-line (C06_lambda_on_def_line_refuted) with proposed repair fixes/C06-lambda-not-a-def.diff (after applying: tools/c06_switch.py lambda repaired <commit>); the stage generates def-line lambdas only on a repaired tree. "
+LA_REP = "Fourth switch: ExpectedFacts.v = LamRefused (fixes/C06-lambda-not-a-def.diff is applied: get_fn_ast refuses every lambda): lambda_guard is True, the stage generates def-line lambdas; the earlier test is a fixed defect (C06_lambda_on_def_line_refuted), a return to it breaks C06_rfacts_pinned and is found by the corpus witness lam_on_def_line. "
+SNAP_NOTE, REP_NOTE = {"fallback": (FB_SNAP, FB_REP), "arity": (AR_SNAP, AR_REP), "alias": (AL_SNAP, AL_REP), "lambda": (LA_SNAP, LA_REP)}[which]
+sn, rn = SNAP_NOTE.strip(), REP_NOTE.strip()
+note = man["note"]
+if sn not in note and rn not in note:
+    note = note.rstrip() + " " + sn
+man["note"] = note.replace(sn, "@@POS@@").replace(rn, "@@POS@@").replace("@@POS@@", sn if mode == "snapshot" else rn)
 mp.write_text(json.dumps(man, indent=1))
 subprocess.run([sys.executable, str(V / "tools/mkmanifest.py")], check=False)
 print(f"C06: ExpectedFacts.v expects {want}; finding {FID} is {'recorded' if mode == 'snapshot' else 'fixed (' + commit + ')'}")
